@@ -60,6 +60,8 @@ type FuncContract struct {
 	RecAssumed     string
 	Defines        string
 	AtCalls        []AtCall
+	Retains        []string
+	AllowAlias     string
 }
 
 type AtCall struct {
@@ -111,7 +113,7 @@ func NewContracts() *Contracts {
 var clauseKeywords = map[string]bool{
 	"props": true, "requires": true, "ensures": true, "assigns": true, "pure": true, "trusted": true,
 	"assumed": true, "terminates": true, "loop": true, "measure": true, "maypanic": true, "note": true,
-	"let": true, "model": true, "recursion_assumed": true, "assume_nopanic": true, "defines": true, "at_call": true,
+	"let": true, "model": true, "recursion_assumed": true, "assume_nopanic": true, "defines": true, "at_call": true, "retains": true, "allow_alias": true,
 }
 
 // normaliseFuncKey turns "(*Cursor).Pos" into "(*pkgpath.Cursor).Pos" and "Name" into "pkgpath.Name".
@@ -435,6 +437,15 @@ func (cs *Contracts) LoadFile(path, pkgPath string) error {
 					return fail(err)
 				}
 				cur.AtCalls = append(cur.AtCalls, AtCall{Match: strings.TrimSuffix(f[0], ":"), C: c})
+			case "retains":
+				// the function keeps a reference to this slice parameter (stores it without copying)
+				cur.Retains = append(cur.Retains, strings.Fields(rest)...)
+			case "allow_alias":
+				cur.AllowAlias = rest
+				if cur.AllowAlias == "" {
+					cur.AllowAlias = "intended"
+				}
+				cs.AssumedList = append(cs.AssumedList, fmt.Sprintf("allow_alias %s: two locations may share a backing array here (A-ALIAS not checked in this function): %s", cur.Key, rest))
 			case "defines":
 				// the result of this pure, deterministic function is named by an uninterpreted spec function
 				cur.Defines = strings.TrimSpace(rest)
